@@ -36,6 +36,9 @@ NoTime == -1
                   thisUpdate, nextUpdate, revokedAt : seconds,
                   reason  : 0..10,
                   ihash   : "default" | "sha1" | "sha256" | "sha384" | "sha512",
+                  sigalg  : "default" | "sha1" | "sha256" | "sha384" | "sha512"  (requested
+                            template.SignatureAlgorithm: the hash, the family follows the
+                            signing key; "default" = field left 0),
                   exts    : Seq([oid, crit, val])]         (ExtraExtensions, non-critical)
    The concrete template may carry sub-second fractions and a non-UTC zone; "to the second"
    means they are invisible, so they are not part of the abstract template at all.
@@ -45,7 +48,17 @@ NoTime == -1
 
 IssuerHashOf(t) == IF t.ihash = "default" THEN "sha1" ELSE t.ihash
 
-Expected(t, responder, embedded) ==
+(* The algorithm a response is labelled with: the requested one, or the signing key's default
+   (documented in signingParamsForPublicKey: SHA-256 for RSA, P-224 and P-256, SHA-384 for
+   P-384).  keytype: "P" = ECDSA P-256, "Q" = ECDSA P-384, "R" = RSA.  The label must also be
+   *true*: the signature has to verify under the signer's key with exactly this algorithm
+   (WellSigned below) - otherwise ParseResponse rejects the library's own output. *)
+FamilyOf(keytype) == IF keytype = "R" THEN "rsa" ELSE "ecdsa"
+DefaultHashOf(keytype) == IF keytype = "Q" THEN "sha384" ELSE "sha256"
+SigAlgOf(t, keytype) ==
+  FamilyOf(keytype) \o "-" \o (IF t.sigalg = "default" THEN DefaultHashOf(keytype) ELSE t.sigalg)
+
+Expected(t, responder, embedded, keytype) ==
   [status     |-> t.status,
    revoked    |-> t.status = "revoked",
    serial     |-> t.serial,
@@ -54,6 +67,7 @@ Expected(t, responder, embedded) ==
    revokedAt  |-> IF t.status = "revoked" THEN t.revokedAt ELSE NoTime,
    reason     |-> IF t.status = "revoked" THEN t.reason ELSE 0,
    ihash      |-> IssuerHashOf(t),
+   sigalg     |-> SigAlgOf(t, keytype),
    responder  |-> responder,
    hasCert    |-> embedded,
    exts       |-> t.exts]
@@ -83,6 +97,10 @@ GarbageCertSig == Sig("none", "none", [subj |-> "none", key |-> "none", id |-> "
 Verifies(sig, k, a, m) == sig = Sig(k, a, m)
 
 Direct(r, ik) == Verifies(r.sig, ik, r.alg, r.tbs)
+
+\* what every output of CreateResponse must satisfy, whatever algorithm was requested: the
+\* signature verifies under the signing key with the algorithm the response is labelled with
+WellSigned(r, signerKey) == Verifies(r.sig, signerKey, r.alg, r.tbs)
 
 Via(r, ik) ==
   /\ Len(r.certs) > 0
@@ -197,6 +215,8 @@ Resp(sc) ==
 
 KeyOfCert(id) == CertSpec[id][2]
 SubjectOf(id) == CertSpec[id][1]     \* the responder name a response carries
+\* key type of the key that signs in scenario sc, for the key-type pair kt = <<CA type, responder type>>
+SignerType(sc, kt) == IF sc.signer \in {"KI", "KO"} THEN kt[1] ELSE kt[2]
 
 \* responder: the certificate whose subject becomes the responder ID - the embedded one (or
 \* the issuer when none is embedded), and additionally always the issuer itself: a response
